@@ -68,6 +68,12 @@ CHECKS["C06"] = (TV, "translation validation: symbolic execution (SSA->SMT, z3) 
     "effect before every yield. The solver decides equality of (generator effects + consumer effects + result) between source-under-coroutine-semantics and generated code for all "
     "inputs in bounds. The 'every occurrence of the type is replaced' clause is a front-end refutation (generated package fails to type-check), reported as unbuildable.", "§6 C06")
 
+CHECKS["C07"] = (TV, "translation validation: symbolic execution (SSA->SMT, z3) of the unoptimised stage output vs the optimised output, both linked with the real seq",
+    "The verif hook exposes stage 1 (rewrite only); rewriter.Compile gives the optimised output. Both are generated Go and are executed symbolically on the same path over the "
+    "C01/C02/C05 corpora plus a family of user closures of eta shape (function variables, method values on reassigned receivers, nil-able receivers, pull loops reassigning "
+    "their iterator, builtins, conversions, generic callees). The solver decides flat log equality (values, advance markers, rt.Eff evaluation events) for all inputs in bounds. "
+    "Import clean-up / build clause: optimised output that fails go/types while the unoptimised output passes is reported as a front-end refutation (not a solver verdict).", "§6 C07")
+
 NA = {
     "C11": "compiler acceptance/buildability is decided by the compiler pipeline itself (go/packages, go/types, reflection-based AST rewriting, printer, file system); it cannot be encoded by an SSA->SMT translator and has no symbolic dimension once a program is fixed — enumeration of concrete compiler runs would be a different technique (DESIGN §7)",
     "C15": "byte-identical output across runs/configurations is a statement about repeated process runs, map iteration in the compiler and leftovers on disk; no symbolic inputs and the code is not encodable (DESIGN §7)",
